@@ -465,7 +465,11 @@ def sqlVisit : Expr → Outcome (List Piece)
   | .compare op l r => do
       let ls ← sqlVisit l
       let rs ← sqlVisit r
-      pure (wrapOperand l 4 true ls ++ sp :: cmpPieces op r ++ sp :: wrapOperand r 4 true rs)
+      -- `null eq x` / `null ne x` are rendered as `x IS [NOT] NULL`: `visit_Compare` swaps the operands first (fix d7f5487; `NULL = x` is never true)
+      if isNullLit l && (op == .eq || op == .ne) then
+        pure (wrapOperand r 4 true rs ++ sp :: cmpPieces op l ++ sp :: wrapOperand l 4 true ls)
+      else
+        pure (wrapOperand l 4 true ls ++ sp :: cmpPieces op r ++ sp :: wrapOperand r 4 true rs)
   | .boolop op l r => do
       let ls ← sqlVisit l
       let rs ← sqlVisit r
